@@ -10,6 +10,7 @@ Ops (a trailing `x=…` token carries real-side-only data — labels, selectors 
   | `match key ep` | `unmatch key ep` | `status wait|resync|insync` | `noop …` | `flush`
 Output: `ok`, or for `flush` the OnEndpointTierUpdate calls sorted by endpoint:
   `ep tag profs T:<tiers> N:<proto> U:<proto> P:<proto> F:<proto>` or `ep nil`, joined by ` ; `
+  followed by ` A:<policies with a match>` (compared with the real ARC's active set)
   (`skip` when not in sync, `panic` for the Sorted() panic).
 -/
 open CalicoVerif CalicoVerif.C02 CalicoVerif.C03 CalicoVerif.Proto
@@ -91,7 +92,10 @@ def step (r : Resolver) (line : String) : Resolver × String :=
     if !r.inSync then (r, "skip") else
     match r.flush with
     | none => (r, "panic")
-    | some (r', cs) => (r', showCalls cs)
+    | some (r', cs) =>
+      -- A: the policies that have a match (what the ARC must declare active)
+      let act := ((r.matched.map (fun x => showKey x.1)).eraseDups).mergeSort (fun a b => decide (a ≤ b))
+      (r', showCalls cs ++ " A:" ++ (if act.isEmpty then "-" else ",".intercalate act))
   | ws =>
     match parseEvent ws with
     | none => (r, "bad-op")
